@@ -18,9 +18,12 @@ package main
 import (
 	"fmt"
 	"os"
+	"os/exec"
 	"runtime"
 	"runtime/pprof"
 	"sort"
+	"strconv"
+	"strings"
 	"sync"
 	"sync/atomic"
 	"time"
@@ -294,7 +297,68 @@ func main() {
 		"tamper_ops":                 "xor{01,80,ff} at every offset (quick: masks 80/ff on the most significant length byte only for the first 6 and last 10 packets); truncate at every offset; drop/dup/swap of the first 6 and last 10 packets (thorough: every packet); 5 wrong-AAD, 5 wrong-terminator, garbage 4096/4097; thorough adds delete/insert a byte at every offset",
 	})
 	report(r, sink, "")
+	racePass(r)
 	r.Finish(true)
+}
+
+func tailStr(b []byte) string {
+	s := string(b)
+	if len(s) > 600 {
+		s = s[len(s)-600:]
+	}
+	return s
+}
+
+// racePass runs the free-running -race binary (checks/c19/race, built by
+// checks/c19/run.sh from the current tree): two real v2transport.Peer endpoints,
+// each with a sender and a receiver goroutine running concurrently, as peer.go's
+// inHandler/outHandler use one Peer.  Data races and any order/contents/ignore
+// flag mismatch become violations.
+func racePass(r *ev.Run) {
+	bin := os.Getenv("C19_RACE_BIN")
+	if bin == "" {
+		r.Set("race_pass", "not run (C19_RACE_BIN unset: binary started without checks/c19/run.sh)")
+		return
+	}
+	reps := strconv.Itoa(r.Pick(1, 3))
+	out, err := exec.Command(bin, reps).CombinedOutput()
+	txt := string(out)
+	bad := false
+	if i := strings.Index(txt, "WARNING: DATA RACE"); i >= 0 {
+		bad = true
+		rep := txt[i:]
+		if len(rep) > 1800 {
+			rep = rep[:1800]
+		}
+		r.Violation("race/"+raceSite(rep), "data race between the concurrent send and receive paths of one v2transport.Peer (free-running -race pass): "+strings.ReplaceAll(rep, "\n", " | "), map[string]string{"kind": "race", "report": rep})
+	}
+	for _, l := range strings.Split(txt, "\n") {
+		if strings.HasPrefix(l, "MISMATCH ") {
+			bad = true
+			r.Violation("race-pass/content-mismatch", "two v2transport.Peer endpoints sending and receiving concurrently: "+l, map[string]string{"kind": "race", "line": l})
+			break
+		}
+	}
+	if !bad && (err != nil || !strings.Contains(txt, "RACEPASS-OK")) {
+		r.Broken("race pass failed: %v: %s", err, tailStr(out))
+	}
+	r.Assume("the -race pass (concurrent sender+receiver goroutines on both endpoints) is a free-running sample of interleavings, not an exhaustive exploration")
+	r.Set("race_pass", map[string]interface{}{
+		"what": "2 real v2transport.Peer endpoints over a bounded in-memory duplex pipe, built with -race; after the handshake each endpoint runs one V2EncPacket goroutine and one V2ReceivePacket goroutine simultaneously; order, contents and ignore flags verified",
+		"configs": "garbage/decoys (0,0,-,-) 240 packets/direction with sizes cycling {0,1,2,3,255,256,65535}; (5,17,[0],[1 100]) 240; (4095,4094,[100 0],-) 240; (16,4095,-,[0]) 460 packets with 65535 replaced by 4096; the two directions use different sizes at the same index; every session crosses the rekey at 224 (the last one also 448)",
+		"repetitions": reps,
+		"output_tail": tailStr(out),
+	})
+}
+
+func raceSite(rep string) string {
+	for _, l := range strings.Split(rep, "\n") {
+		l = strings.TrimSpace(l)
+		if strings.HasPrefix(l, "github.com/btcsuite/btcd/v2transport.") {
+			return strings.TrimSuffix(strings.Fields(l)[0], "()")
+		}
+	}
+	return "unknown"
 }
 
 // runTamperCase builds and runs one tamper case; false if the modification is a no-op.
